@@ -208,6 +208,7 @@ def table(t, job, part):
         raw_bools(t, job, part, on_token, V)
     supplied(t, job, part, V)
     if g in ('cert', 'public', 'secret'): trusted(t, job, part, V)
+    other_roles(t, job, part, V)
 
 def gates(t, job, part, on_token, V):
     ck = t.ck; x = t.x; kind = job['kind']; g = group(kind); where = 'token' if on_token else 'session'
@@ -271,6 +272,52 @@ def gates(t, job, part, on_token, V):
         if r['rv'] == 0: part.observe('CKA_DESTROYABLE false -> true accepted by C_SetAttributeValue (v2.40 gives the attribute no footnote; not judged)', {'kind': kind})
     pc = t.mk(kind, token=on_token)
     if pc is None or x.call('C_DestroyObject', s=t.s, o=pc)['rv'] != 0: part.observe('positive control refused: C_DestroyObject', {'kind': kind})
+
+def other_roles(t, job, part, V):
+    """the object-level gates and the one-way flags do not depend on WHO is logged in: public objects prepared by the user are attacked from the SO session and
+    from a public session (the SO administers the token, PKCS#11 gives it no right to undo an object's policy); judged by effect, seen again by the user"""
+    ck = t.ck; x = t.x; kind = job['kind']; g = group(kind)
+    for on_token in (True, False):
+        where = 'token' if on_token else 'session'
+        if not t.login('user'): part.inconc('login failed'); return
+        mk = lambda extra: t.mk(kind, token=on_token, private=False, extra=extra)
+        O = {'modifiable=false': mk({'CKA_MODIFIABLE': False}), 'copyable=false': mk({'CKA_COPYABLE': False}), 'destroyable=false': mk({'CKA_DESTROYABLE': False})}
+        if g in ('private', 'secret'): O['protected'] = mk({'CKA_SENSITIVE': True, 'CKA_EXTRACTABLE': False, 'CKA_WRAP_WITH_TRUSTED': True})
+        O = {k: h for k, h in O.items() if h is not None}; REF = {k: t.snap(h) for k, h in O.items()}; n_ref = t.count()
+        for who in ('so', 'public'):
+            if who == 'public' and on_token: pass      # a public R/W session may write public token objects
+            if not t.login(who): part.inconc(f'{who} login failed'); continue
+            att = []
+            if 'modifiable=false' in O: att += [('modifiable=false', 'C_SetAttributeValue', dict(o=O['modifiable=false'], tmpl=x.T([('CKA_LABEL', b'changed-by-' + who.encode())]))), ('modifiable=false', 'C_SetAttributeValue', dict(o=O['modifiable=false'], tmpl=x.T([('CKA_MODIFIABLE', True)])))]
+            if 'copyable=false' in O: att += [('copyable=false', 'C_CopyObject', dict(o=O['copyable=false'], tmpl=[])), ('copyable=false', 'C_CopyObject', dict(o=O['copyable=false'], tmpl=x.T([('CKA_COPYABLE', True)]))), ('copyable=false', 'C_SetAttributeValue', dict(o=O['copyable=false'], tmpl=x.T([('CKA_COPYABLE', True)])))]
+            if 'protected' in O:
+                for a, v in (('CKA_SENSITIVE', False), ('CKA_EXTRACTABLE', True), ('CKA_WRAP_WITH_TRUSTED', False)):
+                    att += [('protected', 'C_SetAttributeValue', dict(o=O['protected'], tmpl=x.T([(a, v)]))), ('protected', 'C_SetAttributeValue', dict(o=O['protected'], tmpl=x.T([('CKA_LABEL', b'l'), (a, v)]))), ('protected', 'C_CopyObject', dict(o=O['protected'], tmpl=x.T([(a, v)])))]
+            if 'destroyable=false' in O: att += [('destroyable=false', 'C_DestroyObject', dict(o=O['destroyable=false']))]
+            for what, fn, kw in att:
+                r = x.call(fn, s=t.s, **kw); names = '+'.join(ck.ATTR.get(e['t'], hex(e['t'])) for e in kw.get('tmpl', [])) or ('empty-template' if fn == 'C_CopyObject' else '-')
+                part.case((kind, where, 'other-role', who, what, fn, names), nontrivial=True); part.count('cells_other_roles')
+                now = t.snap(O[what]); bad = None
+                if fn == 'C_CopyObject' and r['rv'] == 0:
+                    cp = t.snap(r['h'])
+                    if what == 'copyable=false': bad = 'copied'
+                    else:
+                        weaker = [a for a, v in (('CKA_SENSITIVE', True), ('CKA_EXTRACTABLE', False), ('CKA_WRAP_WITH_TRUSTED', True)) if cp.get(a) is not v]
+                        if weaker: bad = 'copy-less-protected(' + '+'.join(weaker) + ')'
+                    x.call('C_DestroyObject', s=t.s, o=r['h'])
+                elif fn == 'C_DestroyObject' and (r['rv'] == 0 or not now): bad = 'destroyed'
+                elif fn == 'C_SetAttributeValue' and (r['rv'] == 0 or diff(REF[what], now)):
+                    ch = diff(REF[what], now)
+                    if ch or what != 'copyable=false': bad = 'accepted' if r['rv'] == 0 else 'rejected-but-changed'
+                    if what == 'protected' and r['rv'] == 0 and not ch: bad = None; part.observe('a template that would weaken a one-way flag was accepted but changed nothing', {'kind': kind, 'who': who, 'template': names})
+                    if what == 'modifiable=false' and r['rv'] == 0 and not ch: bad = 'accepted'
+                    if r['rv'] != 0 and ch == ['CKA_LABEL'] and not on_token and what == 'protected': bad = None; part.observe('rejected template changed a SESSION object (prefix applied: the known C09 defect, SessionObject::abortTransaction); not judged here', {'kind': kind, 'who': who}); REF[what] = now
+                if bad: V(f'{fn}|{g}/{where},{what},as={who},{names}|{bad}', f'{fn} by the {who} session on a public object with {what}: {bad} ({r["rvname"]})', {'who': who, 'template': names, 'changed': diff(REF[what], now)})
+                if bad and now: REF[what] = now
+        t.login('user')
+        for k, h in O.items():
+            if not t.snap(h) and not (k == 'destroyable=false'): part.observe('object prepared for the other-roles lane is gone', {'kind': kind, 'what': k})
+            x.call('C_DestroyObject', s=t.s, o=h)
 
 BYTES = (0x00, 0x01, 0x02, 0x80, 0xFF)          # CK_BBOOL as raw bytes: canonical false/true and three non-canonical "true"s
 def bclass(b): return 'canonical' if b in (0, 1) else 'non-canonical'
